@@ -3,6 +3,7 @@
 # (c) 2017-2020 Michał Górny
 # Licensed under the terms of 2-clause BSD license
 
+import errno
 import os.path
 
 from gemato.compression import (
@@ -79,8 +80,15 @@ class ManifestLoader:
             if not ret:
                 raise ManifestMismatch(relpath, verify_entry, diff)
 
-        with open_potentially_compressed_path(path, 'r',
-                                              encoding='utf8') as f:
+        try:
+            opened = open_potentially_compressed_path(path, 'r',
+                                                      encoding='utf8')
+        except ValueError:
+            # a name with an embedded NUL, or one that cannot be encoded
+            # for the filesystem, cannot name an existing file
+            raise FileNotFoundError(errno.ENOENT,
+                                    os.strerror(errno.ENOENT), path)
+        with opened as f:
             m.load(f, self.verify_openpgp, self.openpgp_env)
             st = os.fstat(f.fileno())
 
